@@ -442,7 +442,26 @@ def check_comment(d, position, pretty, v):
     return "tokens-changed", obs
 
 
-BUILDER_VARIANTS = ("plain", "pretty-identify", "hosts", "hosts-pretty")
+BUILDER_VARIANTS = ("plain", "pretty-identify", "hosts", "hosts-pretty", "host:distinct-on", "host:ctas-union", "host:ctas-paren", "host:qualify",
+                    "host:create-view-union")
+
+# statements (as templates with the benign literal 'p') whose generation goes through a rewrite or an engine switch: DISTINCT ON /
+# QUALIFY elimination name or re-parse projections, Athena picks a generator per statement kind
+_HOST_TEMPLATES = {
+    "host:distinct-on": "SELECT DISTINCT ON (a) 'p', b FROM t",
+    "host:ctas-union": "CREATE TABLE x AS SELECT 'p' AS a UNION ALL SELECT 'p' AS a",
+    "host:ctas-paren": "CREATE TABLE x AS (SELECT 'p' AS a)",
+    "host:qualify": "SELECT 'p', c FROM t QUALIFY ROW_NUMBER() OVER (PARTITION BY c ORDER BY d) = 1",
+    "host:create-view-union": "CREATE VIEW v AS SELECT 'p' AS a UNION ALL SELECT 'p' AS a",
+}
+
+
+def _build_template(variant, v):
+    tree = sqlglot.parse_one(_HOST_TEMPLATES[variant], read="postgres" if variant == "host:distinct-on" else "duckdb" if variant == "host:qualify" else None)
+    for lit in list(tree.find_all(exp.Literal)):
+        if lit.is_string and lit.this == "p":
+            lit.set("this", v)
+    return tree
 
 
 def _build(v):
@@ -462,6 +481,8 @@ def _build_hosts(v):
 
 
 def gen_builder(d, variant, v):
+    if variant.startswith("host:"):
+        return _build_template(variant, v).sql(dialect=d or None)
     if variant.startswith("hosts"):
         return _build_hosts(v).sql(dialect=d or None, pretty=variant == "hosts-pretty")
     opts = {"pretty": True, "identify": True} if variant == "pretty-identify" else {}
@@ -476,6 +497,10 @@ def _hosts_observe(d, variant, v):
     toks, e = _guard(_toks, _dialect(d), sql)
     if e is not None:
         return _tok_how(e), _err(sql, e)
+    if variant.startswith("host:"):
+        # the rewrites behind these statements derive alias names from the value, so identifier TEXTS legitimately follow it:
+        # the token kinds around the literals are those of the benign instance
+        return "ok", (sql, ["NAME" if tt in ("VAR", "IDENTIFIER") else tt for tt, tx in toks if tt not in _STRINGISH])
     return "ok", (sql, [(tt, tx) for tt, tx in toks if tt not in _STRINGISH])
 
 
@@ -502,7 +527,7 @@ def builder_baseline(d, variant):
     """node-type sequence of the benign instance v='a', or None if the dialect cannot read back its own output for
     this statement shape (then contract (d) is not applicable to the dialect)."""
     k = (d, variant)
-    if k not in _BUILDER_BASE and variant.startswith("hosts"):
+    if k not in _BUILDER_BASE and variant.startswith("host"):
         r = _hosts_observe(d, variant, "a")
         _BUILDER_BASE[k] = r[1][1] if r[0] == "ok" else None
     if k not in _BUILDER_BASE:
@@ -515,7 +540,7 @@ def check_builder(d, variant, v):
     base = builder_baseline(d, variant)
     if base is None:
         return None
-    if variant.startswith("hosts"):
+    if variant.startswith("host"):
         if v == "":
             return None  # an empty INTERVAL value is legitimately printed without its string (INTERVAL DAY): not an escape
         # the tokens around the literals are those of the benign instance: no value became SQL
